@@ -82,7 +82,7 @@ def obligations(tier):
 
 
 MANIFEST = {
-    "text": "For every way of leaving covered by the shards (DISCONNECT, FIN or RST in header or payload, refusal, write-side failure at either half of an outgoing frame, alone or two at once) and every field value, "
+    "text": "For every way of leaving covered by the shards (DISCONNECT, FIN or RST in header or payload, refusal, write-side failure at either half of an outgoing frame, alone or two at once, the message in flight a client frame or one the manager originates itself) and every field value, "
             "the real remove_module path leaves the module in no table, closes it, publishes exactly one CLIENT_CLOSED describing it to each able monitor, keeps Inv, lets its id and name be reused at once, and the surviving recipients get the message exactly once.",
     "note": "socket fault model as stated in assumptions; ctypes shadows validated per run",
     "design_ref": "DESIGN.md 4.7",
